@@ -72,8 +72,8 @@ def load_variants(only: str | None = None) -> list[dict]:
                     with open(mp, encoding="utf-8") as f:
                         run_ = json.load(f).get("checks_run", {})
                     fired = [k for k, v in run_.get("fired", {}).items() if v and not v[0].startswith("ANALYSIS")]
-                    if run_.get("verdict") in ("MISSED", "does not apply to the current tree"):
-                        continue
+                    if run_.get("verdict") in ("MISSED", "does not apply to the current tree") or "base commit" in str(run_.get("verdict", "")):
+                        continue  # (a seed that only applies to an earlier /repo commit was evaluated there, see its meta.json)
                     if fired:
                         props = fired
                 except (OSError, ValueError):
